@@ -30,14 +30,29 @@ pub struct Limits {
     pub weight: f64,
 }
 
+thread_local! {
+    static FORCED_HISTORY: std::cell::Cell<Option<usize>> = const { std::cell::Cell::new(None) };
+}
+
+/// Runs `f` with the construction history of every `Limits::build` on this thread fixed to `h` (see `Limits::history`).
+pub fn with_forced_history<T>(h: usize, f: impl FnOnce() -> T) -> T {
+    FORCED_HISTORY.with(|c| c.set(Some(h)));
+    let out = f();
+    FORCED_HISTORY.with(|c| c.set(None));
+    out
+}
+
 impl Limits {
     /// How the constraints object under test comes to hold these limits: 0 = Constraints::new, 1 = update_range over an
-    /// earlier range with off-zero centres, 2 = update_range over an earlier unconstrained (from == to) range, 3 = from_degrees. The
+    /// earlier range with off-zero centres, 2 = update_range over an earlier unconstrained (from == to) range, 3 = from_degrees, 4 = update_range narrowing a wider range about the same mid-points. The
     /// choice is a function of the data (so replays agree) and must not matter: reference values are always taken
     /// from a fresh Constraints::new.
     pub fn history(&self) -> usize {
+        if let Some(forced) = FORCED_HISTORY.with(|c| c.get()) {
+            return forced % 5;
+        }
         let h = self.from[0].to_bits() ^ self.to[0].to_bits().rotate_left(17) ^ self.from[5].to_bits().rotate_left(31) ^ self.weight.to_bits().rotate_left(7);
-        ((h ^ (h >> 29) ^ (h >> 47)) % 4) as usize
+        ((h ^ (h >> 29) ^ (h >> 47)) % 5) as usize
     }
     pub fn build(&self) -> Constraints {
         match self.history() {
@@ -49,6 +64,14 @@ impl Limits {
             }
             2 => {
                 let mut c = Constraints::new([-0.3; 6], [-0.3; 6], self.weight);
+                c.update_range(self.from, self.to);
+                c
+            }
+            // an earlier, wider range about the same mid-points, narrowed by update_range (centres unchanged)
+            4 => {
+                let wider_from: [f64; 6] = std::array::from_fn(|i| self.from[i] - 0.75);
+                let wider_to: [f64; 6] = std::array::from_fn(|i| self.to[i] + 0.75);
+                let mut c = Constraints::new(wider_from, wider_to, self.weight);
                 c.update_range(self.from, self.to);
                 c
             }
